@@ -296,6 +296,7 @@ def work_hex_ptr(task):
                                    'expected': {p[0]: p[1] for p in problems}, 'observed': {p[0]: p[2] for p in problems},
                                    'summary': f'w={w} {call} target cell {t} cell={cv:#x} h={hh:#x} by={bb:#x} idx={sgnw(idx, w)}: {[p[0] for p in problems]}'})
                         h.restore_all()
+    pointer_arithmetic_sweep(h, 'hex', w, blocks, {'p': 0, 'q': 0x1230, 'idx': 0, 'h': 0, 'by': 0, 'v4': 0, 'buf': 0}, sieve, stats, shared)
     stats['states'] = len(seen_states)
     return stats, sieve.result(), {'w': w, 'blocks': [b[0] for b in blocks]}
 
@@ -321,6 +322,48 @@ def work_ptr_jump(task):
                            'summary': f'w={w} {ns}.ptr_jump to {target}: arrived at {r.get("exit")}'})
                 h.restore_all()
     return stats, sieve.result(), None
+
+
+def pointer_values(w):
+    """pointer VALUES whose +-dw carries / borrows run through every bit position (the arithmetic macros do not dereference)"""
+    dw = 2 * w
+    lo = (2 * w).bit_length()
+    vals = [dw, 2 * dw, (1 << w) - dw, (1 << w) - 2 * dw]
+    for k in range(lo, w):
+        vals += [1 << k, (1 << k) - dw, (1 << k) + dw, (1 << k) | (1 << (lo - 1))]
+    return [v for v in dict.fromkeys(vals) if 0 <= v < (1 << w) and v % dw == 0]
+
+
+def pointer_arithmetic_sweep(h, ns, w, blocks, base_vals, sieve, stats, shared):
+    """ptr_inc / ptr_dec / ptr_add / ptr_sub over boundary pointer values: the pointer moves by whole cells modulo 2^w"""
+    dw = 2 * w
+    m = (1 << w) - 1
+    delta = {'ptr_inc': dw, 'ptr_dec': -dw, 'ptr_add': 3 * dw, 'ptr_sub': -2 * dw}
+    for name, call in blocks:
+        if name not in delta:
+            continue
+        for pv in pointer_values(w):
+            vals = dict(base_vals, p=pv)
+            exp = dict(vals, p=(pv + delta[name]) & m)
+            r = h.step(name, vals)
+            stats['transitions'] += 1
+            stats['pointer_arithmetic_values'] = stats.get('pointer_arithmetic_values', 0) + 1
+            problems = []
+            if r['cause'] != 0 or r['exit'] != 'ft':
+                problems.append(('termination', 'falls through', {'cause': r['cause'], 'exit': r.get('exit')}))
+            else:
+                if r['vals'] != exp:
+                    bad = {k: (exp[k], r['vals'][k]) for k in exp if exp[k] != r['vals'][k]}
+                    problems.append(('values', {k: hex(v[0]) for k, v in bad.items()}, {k: hex(v[1]) for k, v in bad.items()}))
+                fd = h.frame_diffs(name, r['snap'], r['vals'], extra_allowed=shared)
+                if fd:
+                    problems.append(('frame: other words changed', 'unchanged', [{'word': d[0], 'was': d[1], 'now': d[2], 'at': d[3]} for d in fd[:4]]))
+            if problems:
+                sieve.add({'kind': 'pointer arithmetic does not move by whole cells', 'class': f'{ns} {name} arithmetic {problems[0][0]}',
+                           'case': {'family': 'ptrarith', 'w': w, 'ns': ns, 'block': name, 'call': call, 'pointer': pv},
+                           'expected': {p_[0]: p_[1] for p_ in problems}, 'observed': {p_[0]: p_[2] for p_ in problems},
+                           'summary': f'w={w} {call} with p={pv:#x}: {[p_[0] for p_ in problems]} {problems[0][1]} vs {problems[0][2]}'})
+                h.restore_all()
 
 
 # ------------------------------------------------------------------ bit pointers
@@ -406,6 +449,7 @@ def work_bit_ptr(task):
                                'expected': {p_[0]: p_[1] for p_ in problems}, 'observed': {p_[0]: p_[2] for p_ in problems},
                                'summary': f'w={w} {call} target {t} cell={cellv} b={bv}: {[p_[0] for p_ in problems]}'})
                     h.restore_all()
+    pointer_arithmetic_sweep(h, 'bit', w, blocks, {'p': 0, 'b': 0, 'buf': 0}, sieve, stats, shared)
     return stats, sieve.result(), {'w': w, 'bit_blocks': [b[0] for b in blocks]}
 
 
